@@ -54,7 +54,7 @@ META = dict(
                   "kernel_random_matrices": 700, "api_realised": 1700,
                   "api_hist_compared": 9000, "api_scalar_compared": 150000,
                   "api_sparse_objects": 1700, "api_missing_objects": 1000,
-                  "api_asymmetric_objects": 40,
+                  "api_asymmetric_objects": 40, "derived_plot_cases": 30,
                   "api_history_objects": 40, "api_history_asymmetric": 10,
                   "long_line_cases": 3,
                   "conservation_checked": 2000, "boundary_cases": 500,
@@ -68,9 +68,10 @@ META = dict(
                      "api_scalar_compared": 1400000,
                      "api_sparse_objects": 15000,
                      "api_missing_objects": 7500,
-                     "api_asymmetric_objects": 600,
-                     "api_history_objects": 600,
-                     "api_history_asymmetric": 200,
+                     "api_asymmetric_objects": 250,
+                     "api_history_objects": 350,
+                     "api_history_asymmetric": 100,
+                     "derived_plot_cases": 300,
                      "conservation_checked": 20000, "boundary_cases": 6500,
                      "boundary_cases_modes_disagree_in_R": 2500,
                      "sequential_vs_matrix_compared": 30000}},
